@@ -25,6 +25,42 @@ CHECKS = {
              "formatters returning a null string are excluded.",
         technique=TECH,
     ),
+    "C02": dict(
+        engine="QtlThreads",
+        level="model_checking",
+        text="QtlThreads.tla models Logger::processMessage and OwnThreadHandler with one program counter per thread and one action per lock "
+             "operation / access to m_thread, m_worker, m_pendingCount / pipeline step; the pc values are the names of the guarded "
+             "verification points in the code. TLC proves: MutualExclusion, NoDoubleDelivery, SeqConsecutive, ProducerOrder, SyncDeliveredOnReturn on 3-4 producers x 2 messages with the sequence counter read and written in separate steps (a variant whose mutexes exclude nobody must violate MutualExclusion). Binding: 2-48 producer threads through QMessageLogger into a real Logger and a bare OwnThreadHandler<Pipeline>; each recorded execution (call begin/end, points with the "
+             "scalars they carry, probe events inside the pipeline) is validated by TLC against the module.",
+        design="5/C02",
+        note="Schedules of the real code are the ones seeded jitter produces; mutex releases are not events (conf.eager); C04 is claimed for "
+             "the safe environment, the no-application paths are a known finding.",
+        technique=TECH,
+    ),
+    "C03": dict(
+        engine="QtlThreads",
+        level="model_checking",
+        text="QtlThreads.tla models Logger::processMessage and OwnThreadHandler with one program counter per thread and one action per lock "
+             "operation / access to m_thread, m_worker, m_pendingCount / pipeline step; the pc values are the names of the guarded "
+             "verification points in the code. TLC proves: AsyncOrder (deliveries follow the hand-off order), WorkerOnly, NoDoubleDelivery, SeqConsecutive with liveness ResetTerminates on 2-3 producers. Binding: asynchronous scenarios with heap-allocated context strings destroyed after the call, gated sinks (callers must return while nothing is delivered), every LogMessage accessor compared with what the producer passed; each recorded execution (call begin/end, points with the "
+             "scalars they carry, probe events inside the pipeline) is validated by TLC against the module.",
+        design="5/C03",
+        note="Schedules of the real code are the ones seeded jitter produces; mutex releases are not events (conf.eager); C04 is claimed for "
+             "the safe environment, the no-application paths are a known finding.",
+        technique=TECH,
+    ),
+    "C04": dict(
+        engine="QtlThreads",
+        level="model_checking",
+        text="QtlThreads.tla models Logger::processMessage and OwnThreadHandler with one program counter per thread and one action per lock "
+             "operation / access to m_thread, m_worker, m_pendingCount / pipeline step; the pc values are the names of the guarded "
+             "verification points in the code. TLC proves: DrainBeforeStop, NoUseAfterFree, LateMessagesSync, AllDeliveredAtEnd and liveness ResetTerminates over quit / explicit reset / destructor / start-stop cycles and a second concurrent stopper (the unrepaired double-stop variant and the no-application environment must violate). Binding: move/reset scripts on one or two stopper threads racing the producers, plus one child process per stop path (application quit, explicit reset, cycles, logger destroyed while the application lives, singleton destroyed at exit); each recorded execution (call begin/end, points with the "
+             "scalars they carry, probe events inside the pipeline) is validated by TLC against the module.",
+        design="5/C04",
+        note="Schedules of the real code are the ones seeded jitter produces; mutex releases are not events (conf.eager); C04 is claimed for "
+             "the safe environment, the no-application paths are a known finding.",
+        technique=TECH,
+    ),
     "C05": dict(
         engine="QtlRotation",
         level="model_checking",
@@ -204,7 +240,7 @@ def main():
     return r.returncode
 
 
-HOOK_COMMITS = []
+HOOK_COMMITS = ["086870a"]
 
 if __name__ == "__main__":
     sys.exit(main())
